@@ -157,6 +157,11 @@ def always_raises(stmts):
     return False
 
 
+def is_ref_text(t):
+    import re as _re
+    return bool(_re.fullmatch(r'[A-Za-z_][\w]*(\.[A-Za-z_]\w*)*', t))
+
+
 def dominating_guards(fdef, target):
     """texts of the conjuncts of the if-tests (true branch) that enclose
     `target`, plus the left operands of an enclosing `and`"""
@@ -919,6 +924,30 @@ def run(report, index, tier):
             for name, w in direct.items():
                 method_writes.setdefault(cname, {})[name] = \
                     None if '*' in w else w
+    # facts that hold on entry of a helper method because every one of its
+    # call sites is dominated by a guard (a helper extracted from under an
+    # `if self.x is not None:` is still only reached under it)
+    entry_nonnull = {}
+    call_sites = {}
+    for m, cls, f in allfuncs:
+        for n in ast.walk(f):
+            if isinstance(n, ast.Call) and isinstance(
+                    n.func, ast.Attribute) and isinstance(
+                    n.func.value, ast.Name) and n.func.value.id == 'self':
+                call_sites.setdefault((cls, n.func.attr), []).append((f, n))
+    for (cls, mname), sites_ in call_sites.items():
+        common = None
+        for f, n in sites_:
+            facts = set()
+            for g_ in dominating_guards(f, n):
+                g_ = g_.strip()
+                if g_.endswith(' is not None'):
+                    facts.add(g_[:-len(' is not None')])
+                elif is_ref_text(g_):
+                    facts.add(g_)
+            common = facts if common is None else (common & facts)
+        if common:
+            entry_nonnull[(cls, mname)] = common
     nsites = 0
     for m, cls, f in allfuncs:
         if f.name.startswith('p_') and f.name != 'p_error':
@@ -962,7 +991,14 @@ def run(report, index, tier):
                     n.value) and is_nullable(ast.unparse(n.value)):
                 nsites += 1
         bad = {}
+        given = entry_nonnull.get((cls, f.name), set())
+        assigned = {ast.unparse(t_) for n_ in ast.walk(f)
+                    if isinstance(n_, (ast.Assign, ast.AugAssign))
+                    for t_ in (n_.targets if isinstance(n_, ast.Assign)
+                               else [n_.target])}
         for node, t in sites:
+            if t in given and t not in assigned:
+                continue    # guarded at every call site of this helper
             bad.setdefault((f.name, t), node)
         for n in ast.walk(f):
             if isinstance(n, (ast.Attribute, ast.Subscript)) and is_ref(
